@@ -353,9 +353,27 @@ func args(call ssa.CallInstruction) []ssa.Value { return call.Common().Args }
 
 // instrs calls f for every instruction of fn.
 func instrs(fn *ssa.Function, f func(b *ssa.BasicBlock, i int, ins ssa.Instruction)) {
+	instrsSeen(fn, f, map[*ssa.Function]bool{})
+}
+
+// instrsSeen visits the instructions of fn and, as if they were inlined, those of the new helper
+// functions (see known.go) it calls.
+func instrsSeen(fn *ssa.Function, f func(b *ssa.BasicBlock, i int, ins ssa.Instruction), seen map[*ssa.Function]bool) {
+	if seen[fn] {
+		return
+	}
+	seen[fn] = true
 	for _, b := range fn.Blocks {
 		for i, ins := range b.Instrs {
 			f(b, i, ins)
+			if ci, ok := ins.(ssa.CallInstruction); ok && len(newHelpers) > 0 {
+				if h := ci.Common().StaticCallee(); h != nil && newHelpers[h] && h.Blocks != nil {
+					instrsSeen(h, f, seen)
+					for _, a := range closures(h) {
+						instrsSeen(a, f, seen)
+					}
+				}
+			}
 		}
 	}
 }
